@@ -342,3 +342,115 @@ pub fn typed_filter_cases() -> Vec<TypedFilterCase> {
     }
     out
 }
+
+/// `match` with type arms over scrutinee types that hold a union *inside* an array / tuple / struct / cell: which arm sets
+/// the checker accepts as covering is its decision; whatever it accepts is called with values of every shape the
+/// scrutinee type admits (homogeneous, mixed, empty), and some arm must take each of them.
+pub struct MatchCoverageCase {
+    pub scrutinee: String,
+    pub arms: Vec<String>,
+    pub values: Vec<String>,
+    pub decl: String,
+    pub calls: Vec<String>,
+}
+
+pub fn match_coverage_cases() -> Vec<MatchCoverageCase> {
+    let table: Vec<(&str, Vec<&str>, Vec<Vec<&str>>)> = vec![
+        ("[int|string]", vec!["[]", "[1]", "[\"a\"]", "[1, \"a\"]", "[\"a\", 1, 2]"],
+            vec![vec!["[int]", "[string]"], vec!["[string]", "[int]"], vec!["[int]", "[string]", "[int|string]"], vec!["[any]"], vec!["[int]", "[any]"], vec!["[int|string]"], vec!["[int]"], vec!["[int]", "[string]", "[]"]]),
+        ("[int|float]", vec!["[]", "[1]", "[2.5]", "[1, 2.5]"], vec![vec!["[int]", "[float]"], vec!["[float]", "[int]", "[int|float]"], vec!["[int|float]"]]),
+        ("(int|string, bool)", vec!["(1, true)", "(\"a\", false)"], vec![vec!["(int, bool)", "(string, bool)"], vec!["(int, bool)"], vec!["(int|string, bool)"], vec!["(any, bool)"], vec!["(int, any)", "(string, any)"]]),
+        ("(int|string, int|string)", vec!["(1, 1)", "(1, \"a\")", "(\"a\", 1)", "(\"a\", \"b\")"],
+            vec![vec!["(int, int)", "(string, string)"], vec!["(int, int)", "(int, string)", "(string, int)", "(string, string)"], vec!["(int, any)", "(string, any)"], vec!["(int, int|string)", "(string, int)"]]),
+        ("[[int|string]]", vec!["[]", "[[]]", "[[1], [\"a\"]]", "[[1, \"a\"]]", "[[1], [2]]"], vec![vec!["[[int]]", "[[string]]"], vec!["[[int]]", "[[string]]", "[[int|string]]"], vec!["[[int]|[string]]"], vec!["[[any]]"]]),
+        ("struct{a: int|string}", vec!["struct{a := 1}", "struct{a := \"s\"}"], vec![vec!["struct{a: int}", "struct{a: string}"], vec!["struct{a: int}"], vec!["struct{a: int|string}"], vec!["struct{}"]]),
+        ("struct{a: [int|string]}", vec!["struct{a := [1]}", "struct{a := [1, \"s\"]}", "struct{a := []}"], vec![vec!["struct{a: [int]}", "struct{a: [string]}"], vec!["struct{a: [int|string]}"], vec!["struct{a: [int]}", "struct{a: [string]}", "struct{a: [any]}"]]),
+        ("([int|string], int)", vec!["([1], 1)", "([1, \"a\"], 2)", "([], 3)"], vec![vec!["([int], int)", "([string], int)"], vec!["([int|string], int)"], vec!["([int], int)", "([string], int)", "([any], int)"]]),
+        ("[(int|string, int)]", vec!["[]", "[(1, 1)]", "[(1, 1), (\"a\", 1)]"], vec![vec!["[(int, int)]", "[(string, int)]"], vec!["[(int|string, int)]"], vec!["[(any, int)]"]]),
+        ("int|[int|string]", vec!["1", "[1]", "[1, \"a\"]", "[]"], vec![vec!["int", "[int]", "[string]"], vec!["int", "[int|string]"], vec!["int", "[any]"], vec!["int|[int]", "[string]"]]),
+        ("[int]|[string]", vec!["[1]", "[\"a\"]", "[]"], vec![vec!["[int]", "[string]"], vec!["[int]"], vec!["[int|string]"], vec!["[string]", "[any]"]]),
+        ("(int, int)|(int, string)", vec!["(1, 2)", "(1, \"a\")"], vec![vec!["(int, int)", "(int, string)"], vec!["(int, int|string)"], vec!["(int, int)"], vec!["(int, any)"]]),
+        ("[int|string]|string", vec!["\"s\"", "[1, \"a\"]", "[2]"], vec![vec!["[int]", "[string]", "string"], vec!["[int|string]", "string"], vec!["string", "[any]"]]),
+        ("mut (int|string)", vec!["mut int|string 1", "mut int|string \"s\""], vec![vec!["mut int", "mut string"], vec!["mut (int|string)"], vec!["mut any"]]),
+        ("[mut (int|string)]", vec!["[mut int|string 1]", "[]"], vec![vec!["[mut int]", "[mut string]"], vec!["[mut (int|string)]"]]),
+        ("() -> (int|string)", vec!["() -> int|string { return 1 }", "() -> int { return 2 }", "() -> string { return \"s\" }"], vec![vec!["() -> int", "() -> string"], vec!["() -> (int|string)"], vec!["() -> any"]]),
+    ];
+    let mut out = Vec::new();
+    for (t, values, armsets) in table {
+        for arms in armsets {
+            let arm_text: String = arms.iter().enumerate().map(|(i, a)| format!("v{i}: {a} => {}, ", i + 1)).collect();
+            let decl = format!("f := (x: {t}) -> int {{ return match x {{ {arm_text}}} }};");
+            let calls = values.iter().map(|v| format!("{decl} f({v})")).collect();
+            out.push(MatchCoverageCase { scrutinee: t.to_string(), arms: arms.iter().map(|a| a.to_string()).collect(), values: values.iter().map(|v| v.to_string()).collect(), decl, calls });
+        }
+    }
+    out
+}
+
+/// a call through a value whose static type is a *union of function types*: the checker must intersect the parameter types
+/// (struct / tuple / array / cell / function / union parameters of every pairing) and type the result; whatever it accepts is
+/// called with both kinds of function
+pub fn union_call_cases() -> Vec<Case> {
+    // (parameter type, an argument of that type)
+    let params: Vec<(&str, &str)> = vec![
+        ("int", "1"), ("float", "2.5"), ("string", "\"s\""), ("int|string", "1"), ("int|float", "2.5"), ("any", "1"), ("()", "()"),
+        ("[int]", "[1]"), ("[int|string]", "[1]"), ("[any]", "[1]"), ("[]", "[]"),
+        ("(int, int)", "(1, 2)"), ("(int, string)", "(1, \"s\")"), ("(int, int, int)", "(1, 2, 3)"), ("(any, any)", "(1, 2)"),
+        ("struct{a: int}", "struct{a := 1}"), ("struct{b: int}", "struct{b := 1}"), ("struct{a: int, b: int}", "struct{a := 1, b := 2}"), ("struct{a: string}", "struct{a := \"s\"}"),
+        ("struct{a: int|string}", "struct{a := 1}"), ("struct{}", "struct{}"), ("struct{a: int, c: int}", "struct{a := 1, c := 3}"), ("struct{a: struct{b: int}}", "struct{a := struct{b := 1}}"),
+        ("mut int", "mut 1"), ("mut (int|string)", "mut int|string 1"), ("() -> int", "() -> int { return 1 }"), ("(int) -> int", "(x: int) -> int { return x }"),
+    ];
+    let mut out = Vec::new();
+    for (pa, va) in &params {
+        for (pb, vb) in &params {
+            // arguments: the one of A, the one of B, and a struct carrying the fields of both (meets of struct types)
+            let extra = "struct{a := 1, b := 2, c := 3}";
+            let decl = format!("g := (f: ({pa}) -> int | ({pb}) -> string, x: any) -> any {{ return 0 }};");
+            let mut calls = Vec::new();
+            for arg in [*va, *vb, extra] {
+                calls.push(format!("g := (f: ({pa}) -> int | ({pb}) -> string) -> any {{ return f({arg}) }}; (g((p: {pa}) -> int {{ return 1 }}), g((p: {pb}) -> string {{ return \"s\" }}))"));
+                calls.push(format!("g := (f: ({pa}) -> int | ({pb}) -> string) -> any {{ r := f({arg}); return [r] }}; g((p: {pa}) -> int {{ return 1 }})"));
+            }
+            calls.push(format!("g := (f: ({pa}, int) -> int | ({pb}) -> int) -> any {{ return f({va}) }}; g((p: {pb}) -> int {{ return 1 }})"));
+            calls.push(format!("fs := [(p: {pa}) -> int {{ return 1 }}, (p: {pb}) -> int {{ return 2 }}]; fs[0]({va})"));
+            out.push(Case { label: "union-call".into(), decl, calls });
+        }
+    }
+    out
+}
+
+/// loops (and other constructs) used for their value, whose only ways out stand in unusual positions: inside the value of a
+/// declaration or destructuring, in a branch of a nested if / match / if-set, in a nested block, after an inner loop.
+/// (program, canonical value) - `loop` / `while` / `for` evaluate to (), whatever their exits look like
+pub fn loop_value_programs() -> Vec<(String, String)> {
+    let exits = [
+        "s := if *k > 2 { break } else { 1 };",
+        "(p, q) := if *k > 2 { break } else { (1, 2) };",
+        "s := match *k { 3 => { break }, => 1, };",
+        "s := if v: string = [1, \"a\"][*k % 2] { break } else { 1 };",
+        "s := { if *k > 2 { break }; 1 };",
+        "if *k > 2 { break };",
+        "if *k <= 2 { } else { break };",
+        "match *k { 3 => { break }, => { }, };",
+        "{ { if *k > 2 { break }; }; };",
+        "for j in [1]~ { if *k > 2 { break }; }; if *k > 3 { break };",
+        "t := (if *k > 2 { break } else { 1 }, 2);",
+        "s := [if *k > 2 { break } else { 1 }];",
+        "c := mut 0; c = if *k > 2 { break } else { 1 };",
+        "g := (x: int) -> int { return x }; g(if *k > 2 { break } else { 1 });",
+    ];
+    let mut out = Vec::new();
+    for e in exits {
+        // at top level: the loop's value bound to a name; the program's type must admit ()
+        out.push((format!("k := mut 0; r := loop {{ k += 1; {e} }}; (r, *k)"), String::new()));
+        out.push((format!("k := mut 0; r := while true {{ k += 1; {e} }}; (r, *k)"), String::new()));
+        out.push((format!("k := mut 0; loop {{ k += 1; {e} }}"), "()".into()));
+        // in a function: either the checker refuses it (no return on the path that leaves the loop) or the result is an int
+        out.push((format!("f := () -> int {{ k := mut 0; loop {{ k += 1; {e} }} }}; f()"), "<int-or-rejected>".into()));
+        out.push((format!("f := () -> int {{ k := mut 0; loop {{ k += 1; {e} }} return *k }}; f()"), "<int-or-rejected>".into()));
+        out.push((format!("f := () -> int {{ k := mut 0; loop {{ k += 1; {e} return 100 + *k }} return *k }}; f()"), "<int-or-rejected>".into()));
+        out.push((format!("f := () -> () {{ k := mut 0; loop {{ k += 1; {e} }} }}; f()"), "()".into()));
+        out.push((format!("f := () -> [()] {{ k := mut 0; return [loop {{ k += 1; {e} }}] }}; f()"), "[()]".into()));
+    }
+    out
+}
